@@ -94,7 +94,18 @@ def scn_nested(ctx):
         ev.add("outer_submit_ret")
 
     c = spawn("client", client)
+    c2 = None
+    if p.get("extra_client"):
+        # another thread submits to the same executor while the nested submission is going on
+        def client2():
+            sched.point()
+            out["g"] = ex.submit(lambda: 6)
+            ev.add("extra_submit_ret")
+        c2 = spawn("client2", client2)
     c.join(LIMIT)
+    if c2 is not None:
+        c2.join(LIMIT)
+        ctx.check("concurrent-submit-returns", not c2.is_alive(), "a submit() from another thread blocked while a nested submit was in progress (%s over %s, nested in %s)" % ("+".join(layers), base, site))
     ctx.check("outer-submit-returns", not c.is_alive(), "submit() blocked (%s over %s, nested in %s)" % ("+".join(layers), base, site))
     if c.is_alive():
         return
@@ -196,17 +207,20 @@ def plan(tier, seed):
     q = tier == "quick"
     items = []
     for base in ("sync", "pool"):
-        items.append(dict(scenario="nested", params=dict(layers=[], base=base, site="callable"), bounds=dict(P=1 if q else 2)))
-        items.append(dict(scenario="nested", params=dict(layers=[], base=base, site="callback"), bounds=dict(P=1 if q else 2)))
+        items.append(dict(scenario="nested", params=dict(layers=[], base=base, site="callable"), bounds=dict(lpredict=True, P=1 if q else 2)))
+        items.append(dict(scenario="nested", params=dict(layers=[], base=base, site="callback"), bounds=dict(lpredict=True, P=1 if q else 2)))
         for ln in SINGLE:
             sites = ["callable", "callback"] + (["map_fn"] if ln == "map" else []) + (["poll_fn"] if ln == "poll" else [])
             for site in sites:
-                items.append(dict(scenario="nested", params=dict(layers=[ln], base=base, site=site), bounds=dict(P=(1 if q else 2) if base == "sync" else (0 if q else 1))))
+                items.append(dict(scenario="nested", params=dict(layers=[ln], base=base, site=site), bounds=dict(lpredict=True, P=(1 if q else 2) if base == "sync" else (0 if q else 1))))
+        if base == "sync":
+            for ln in SINGLE:
+                items.append(dict(scenario="nested", params=dict(layers=[ln], base=base, site="callable", extra_client=True), bounds=dict(lpredict=True, P=1 if q else 2)))
         for ln in SINGLE:
-            items.append(dict(scenario="clients", params=dict(layers=[ln], base=base, prog="A"), bounds=dict(P=0 if q else 1)))
+            items.append(dict(scenario="clients", params=dict(layers=[ln], base=base, prog="A"), bounds=dict(lpredict=True, P=0 if q else 1)))
     if not q:
         for pr in (["retry", "map"], ["map", "retry"], ["throttle", "retry"], ["poll", "retry"], ["retry", "cancel_on_shutdown"], ["timeout", "retry"], ["throttle_block", "poll"]):
             for base in ("sync", "pool"):
-                items.append(dict(scenario="nested", params=dict(layers=pr, base=base, site="callable"), bounds=dict(P=1)))
-                items.append(dict(scenario="clients", params=dict(layers=pr, base=base, prog="A"), bounds=dict(P=1 if base == "sync" else 0)))
+                items.append(dict(scenario="nested", params=dict(layers=pr, base=base, site="callable"), bounds=dict(lpredict=True, P=1)))
+                items.append(dict(scenario="clients", params=dict(layers=pr, base=base, prog="A"), bounds=dict(lpredict=True, P=1 if base == "sync" else 0)))
     return items
